@@ -7,6 +7,7 @@ import SigHook.Model.Channel
 import SigHook.Model.ChannelGen
 import SigHook.Model.Iterator
 import SigHook.Model.Entry
+import SigHook.Model.Builtin
 import SigHook.Gen.Orderings
 import SigHook.Gen.Consts
 import SigHook.Model.Env
@@ -657,6 +658,44 @@ def enStep (d : EnDrv) (line : String) : EnDrv × String :=
   | ["---"] => ({}, "exit continues\n---")
   | _ => (d, "bad-op")
 
+/-! ### flag actions (L7) -/
+
+structure FlDrv where
+  acts : List Builtin.Action := []
+  fl : Builtin.Flags := []
+  bools : List String := []
+  usizes : List String := []
+  dead : Option Nat := none
+
+def flagIdx (n : String) : Nat :=
+  let k := ((n.drop 1).toString.toNat?).getD 0
+  if n.startsWith "b" then k else 100 + k
+
+def flDeclare (d : FlDrv) (n : String) : FlDrv :=
+  if n.startsWith "b" then (if d.bools.contains n then d else { d with bools := d.bools ++ [n] })
+  else (if d.usizes.contains n then d else { d with usizes := d.usizes ++ [n] })
+
+def flStep (d : FlDrv) (line : String) : FlDrv × String :=
+  match line.trimAscii.toString.splitOn " " with
+  | ["---"] => ({}, (match d.dead with | some c => s!"exit exit:{c}" | none => "exit continues") ++ "\n---")
+  | w =>
+    if d.dead.isSome then (d, "") else
+    match w with
+    | ["flag", f] => ({ flDeclare d f with acts := d.acts ++ [.setTrue (flagIdx f)] }, "ok")
+    | ["usize", f, v] => ({ flDeclare d f with acts := d.acts ++ [.setUsize (flagIdx f) (v.toNat?.getD 0)] }, "ok")
+    | ["shutdown", st, f] => ({ flDeclare d f with acts := d.acts ++ [.condShutdown ((parseInt? st).getD 0) (flagIdx f)] }, "ok")
+    | ["set", f, v] =>
+      let x := v.toNat?.getD 0
+      let x := if f.startsWith "b" then (if x == 0 then 0 else 1) else x
+      ({ flDeclare d f with fl := Builtin.setF d.fl (flagIdx f) x }, "ok")
+    | ["raise"] =>
+      match Builtin.deliver d.acts d.fl with
+      | .returned fl' =>
+        let txt := "alive" ++ String.join ((d.bools ++ d.usizes).map (fun n => s!" {n}={Builtin.getF fl' (flagIdx n)}"))
+        ({ d with fl := fl' }, txt)
+      | .exited code hooks _ => ({ d with dead := some code }, if hooks then "ATEXIT-HOOK-RAN" else "")
+    | _ => (d, "bad-op")
+
 partial def loop {σ} (h : IO.FS.Stream) (out : IO.FS.Stream) (st : σ) (f : σ → String → σ × String) :
     IO Unit := do
   let line ← h.getLine
@@ -680,5 +719,6 @@ def main (args : List String) : IO UInt32 := do
   | ["channel"] => loop stdin stdout ({} : ChDrv) chStep; return 0
   | ["iter"] => loop stdin stdout ({} : ItDrv) itStep; return 0
   | ["entries"] => loop stdin stdout ({} : EnDrv) enStep; return 0
+  | ["flags"] => loop stdin stdout ({} : FlDrv) flStep; return 0
   | ["channel-table"] => (for l in chTable () do stdout.putStrLn l); return 0
   | _ => IO.eprintln "usage: driver registry"; return 2
